@@ -7,7 +7,12 @@
 #[derive(Debug, Clone, Copy, PartialEq, Eq)]
 pub struct Options {
     pub(crate) keepalive_interval: crate::timing::OptionalDuration,
+    /// The timeout in effect: `keepalive_timeout_requested`, raised to `keepalive_interval`
+    /// if it is shorter. Maintained by `clamp_keepalive_timeout`.
     pub(crate) keepalive_timeout: crate::timing::OptionalDuration,
+    /// The timeout as last passed to [`Options::keepalive_timeout`], kept so that the result
+    /// does not depend on the order in which the two keepalive setters are called.
+    pub(crate) keepalive_timeout_requested: crate::timing::OptionalDuration,
     pub(crate) datagram_buffer_size: usize,
     pub(crate) stream_buffer_size: usize,
     pub(crate) bind_buffer_size: usize,
@@ -41,6 +46,7 @@ impl Options {
         Self {
             keepalive_interval: crate::timing::OptionalDuration::NONE,
             keepalive_timeout: crate::timing::OptionalDuration::NONE,
+            keepalive_timeout_requested: crate::timing::OptionalDuration::NONE,
             datagram_buffer_size: DATAGRAM_BUFFER_SIZE,
             stream_buffer_size: STREAM_BUFFER_SIZE,
             bind_buffer_size: 0,
@@ -51,17 +57,36 @@ impl Options {
     }
 
     /// Sets the interval at which to send [`Ping`](crate::ws::Message::Ping) frames.
+    ///
+    /// A finite [`keepalive_timeout`](Self::keepalive_timeout) shorter than this interval is
+    /// raised to it, no matter which of the two setters is called first.
     #[must_use]
-    pub const fn keepalive_interval(mut self, interval: crate::timing::OptionalDuration) -> Self {
+    pub fn keepalive_interval(mut self, interval: crate::timing::OptionalDuration) -> Self {
         self.keepalive_interval = interval;
-        self
+        self.clamp_keepalive_timeout()
     }
 
     /// Sets the maximum allowed delay between sending a [`Ping`](crate::ws::Message::Ping)
     /// and receiving a corresponding [`Pong`](crate::ws::Message::Pong).
+    ///
+    /// A finite timeout shorter than the [`keepalive_interval`](Self::keepalive_interval) is
+    /// raised to that interval, no matter which of the two setters is called first.
     #[must_use]
     pub fn keepalive_timeout(mut self, timeout: crate::timing::OptionalDuration) -> Self {
-        self.keepalive_timeout = timeout.max(self.keepalive_interval);
+        self.keepalive_timeout_requested = timeout;
+        self.clamp_keepalive_timeout()
+    }
+
+    /// Recompute the effective timeout from the requested one and the current interval.
+    fn clamp_keepalive_timeout(mut self) -> Self {
+        // `OptionalDuration::NONE` compares greater than every finite duration, so only clamp
+        // against a finite interval: otherwise a finite timeout would silently become "never".
+        self.keepalive_timeout = if self.keepalive_interval.is_some() {
+            self.keepalive_timeout_requested
+                .max(self.keepalive_interval)
+        } else {
+            self.keepalive_timeout_requested
+        };
         self
     }
 
